@@ -216,6 +216,7 @@ HOSTILE_LINES = ["!", "!!", "!-", "!+1", "!1x", "!99999999999999999999", "!-9999
                  "ls d/x", "ls d/f", "ls nosuch", "cd d/e", "cd d/e/back/e/back", "cd ..", "cd", "cd d/f", "cd d/x", "pwd", "tree", "tree d",
                  "tree d/f", "tree d/x", "tree /", "help", "help p", "help d/x", "help nosuch", "d", "d/e", "d/f 1 2 3", "d/x", "/", "..", ".",
                  "//", "d//e", "history 5", "exit now", "quit", "p " + "x" * 3000, ";" * 200, "p x;" * 100, " " * 50, "\t\t", "p\tx",
+                 "ls d/x/y", "cd d/x/y", "tree d/x/y", "help d/x/y", "d/x/y 1", "ls d/x/", "cd d/e/back/x/y/z", "ls d/x/../x/y",  # THROUGH the dangling mount
                  "!0" * 30, "history;history", "cd d/e;tree;ls;pwd;cd ..;tree ..;help ../..", "cd d;e;back;e;root;d;tree /"]
 
 
